@@ -147,7 +147,7 @@ def run(rep):
                 '(Cartesian -> fractional through M^-1), lengths, normalize(), symmetrize(sym_group / sym_ops), transform(), autocorrelation() are '
                 'compared. Non-trivial = case with a bond crossing a cell face.')
     rep.assumptions = ['bond length well below half the cell width and exactly four satellites within 1.5 x the shortest bond (2 % margin)',
-                       'vectors_spherical invertibility is not covered (arcsin / arctan2 have no integer image)',
+                       'vectors_spherical: judged by a float round trip in the harness (azimuth, elevation in degrees, length -> vector), not by TLC (arcsin / arctan2 have no integer image)',
                        'images compared per frame as a multiset; bond order compared up to a frame-independent permutation']
     r = core.model_check('MC_Orient', mc_cfg(1, 3) if quick else mc_cfg(2, 3), workers=8, timeout=2400)
     rep.add_model('MC_Orient point group 4/m', r)
@@ -204,6 +204,16 @@ def run(rep):
             el = np.array(e['lensq'])[:, order]
             if np.abs(lens - el).max() > 1e-6 * max(1.0, el.max()):
                 bad.append(('bond-lengths',))
+            # spherical representation (azimuth, elevation in degrees, length): the vector is recovered from it.  A float round trip --
+            # trigonometry has no integer image, so this one clause is judged by the harness, not by TLC.
+            sph = np.asarray(o.vectors_spherical, dtype=float)
+            if sph.shape != vec.shape:
+                bad.append(('spherical-shape', sph.shape))
+            else:
+                az_, el_, r_ = np.radians(sph[..., 0]), np.radians(sph[..., 1]), sph[..., 2]
+                back = np.stack([r_ * np.cos(el_) * np.cos(az_), r_ * np.cos(el_) * np.sin(az_), r_ * np.sin(el_)], axis=-1)
+                if not np.isfinite(back).all() or np.abs(back - vec).max() > 1e-9 * max(1.0, np.abs(vec).max()):
+                    bad.append(('spherical-representation-does-not-recover-the-vector', float(np.nanmax(np.abs(back - vec)))))
             if not rec['cartesian']:
                 # derived operations return new objects and leave the original untouched, in every cell
                 o.normalize(), o.transform(np.eye(3) * 2.0), o.symmetrize(sym_group='-1'), o.autocorrelation(), o.vectors_spherical
